@@ -82,7 +82,7 @@ Qed.
 Lemma can_inwin now d : dt_can_be_triggered now d = true -> c5_inwin now d = true.
 Proof.
   unfold dt_can_be_triggered, c5_inwin. intros H.
-  destruct (dt_in_effect now d && dt_is_triggered now d); [discriminate|].
+  destruct (dt_is_triggered now d && (d_fixed d || dt_in_effect now d)); [discriminate|].
   destruct (dt_is_expired now d); [discriminate|].
   destruct ((now <? d_start d) || (d_end d <? now)) eqn:E; [discriminate|]. lia.
 Qed.
@@ -102,6 +102,14 @@ Lemma fixed_can_triggered now d :
   trig_sane now d -> d_fixed d = true -> dt_can_be_triggered now d = true -> d_trigger d <> 0 -> now = d_end d.
 Proof.
   intros [H|H] Hf Hc Hn; [contradiction|]. revert Hc.
+  unfold dt_can_be_triggered, dt_is_expired, dt_is_triggered, dt_in_effect. rewrite Hf. zb.
+Qed.
+
+(* since /repo 51cd8e9 a fixed downtime that was triggered is never triggerable again *)
+Lemma fixed_can_untriggered now d :
+  trig_sane now d -> d_fixed d = true -> dt_can_be_triggered now d = true -> d_trigger d = 0.
+Proof.
+  intros [H|H] Hf Hc; [exact H|]. exfalso. revert Hc.
   unfold dt_can_be_triggered, dt_is_expired, dt_is_triggered, dt_in_effect. rewrite Hf. zb.
 Qed.
 
@@ -1195,16 +1203,14 @@ Proof.
 Qed.
 
 Definition entries_sane (now : Z) (ds : list dt) : Prop := Forall (fun d => 0 < d_entry d <= now) ds.
-Definition no_end_instant (now : Z) (ds : list dt) : Prop := Forall (fun d => d_fixed d = true -> now <> d_end d) ds.
 
 Lemma start_count_timer now f :
   NoDup (ids (f_dts f)) -> sane now (f_dts f) -> entries_sane now (f_dts f) -> nofixedchain (f_dts f) ->
-  no_end_instant now (f_dts f) ->
   c5_cnt c5_is_start (snd (do_dt_start_timer now f)) =
     (if f_paused f then 0 else U (f_dts f) - U (f_dts (fst (do_dt_start_timer now f)))) /\
   sane now (f_dts (fst (do_dt_start_timer now f))).
 Proof.
-  intros Hnd Hs He Hn Hni. unfold do_dt_start_timer. set (p := f_paused f). set (ds := f_dts f) in *.
+  intros Hnd Hs He Hn. unfold do_dt_start_timer. set (p := f_paused f). set (ds := f_dts f) in *.
   match goal with |- context [fold_left ?g ?l ?a] =>
     assert (let r := fold_left g l a in
             Rwl now ds (fst r) /\ sane now (fst r) /\
@@ -1222,10 +1228,7 @@ Proof.
       destruct (find_dt_some _ _ _ Fa) as [Hda Hida].
       destruct (Rwl_in _ _ _ _ Ha Hda) as (d & Hd & HRd). destruct (Rw_static _ _ _ HRd) as (_ & Sf & Se & Sn).
       assert (trig_sane now da) as Hsda by (unfold sane in Hsa; rewrite Forall_forall in Hsa; apply Hsa; exact Hda).
-      assert (d_trigger da = 0) as Ht0.
-      { destruct (Z.eq_dec (d_trigger da) 0) as [E0|E0]; [exact E0|]. exfalso.
-        pose proof (fixed_can_triggered now da Hsda Ef Ec E0) as Hend.
-        unfold no_end_instant in Hni. rewrite Forall_forall in Hni. apply (Hni d Hd); [congruence|congruence]. }
+      assert (d_trigger da = 0) as Ht0 by (apply (fixed_can_untriggered now da Hsda Ef Ec)).
       assert (0 < Z.max (d_start da) (d_entry da) <= now) as Ht.
       { pose proof (can_inwin _ _ Ec) as Hw. unfold c5_inwin in Hw.
         unfold entries_sane in He. rewrite Forall_forall in He. pose proof (He d Hd) as Hen. rewrite <- Sn in Hen. lia. }
